@@ -48,8 +48,13 @@ func Amount() *rapid.Generator[*big.Int] {
 // SmallAmount draws amounts that interact (0..300) with rare edge values.
 func SmallAmount() *rapid.Generator[*big.Int] {
 	return rapid.Custom(func(t *rapid.T) *big.Int {
-		if rapid.IntRange(0, 19).Draw(t, "amtEdge") == 0 {
+		switch rapid.IntRange(0, 19).Draw(t, "amtEdge") {
+		case 0:
 			return new(big.Int).Set(rapid.SampledFrom(EdgeAmounts).Draw(t, "edge"))
+		case 1, 2:
+			return big.NewInt(0) // zero-amount postings are legal and exercise distinct paths
+		case 3, 4, 5:
+			return big.NewInt(int64(rapid.IntRange(1, 6).Draw(t, "tiny")))
 		}
 		return big.NewInt(int64(rapid.IntRange(0, 300).Draw(t, "small")))
 	})
